@@ -8,5 +8,8 @@ CONSTANTS
   Kinds = {"perstream", "perentry", "prom"}
   PanicOnEmpty = FALSE
   TypesOfWholeSeries = FALSE
+  LeakLabels = FALSE
+  Pseudo = {FALSE}
+  Mixes = {FALSE}
 INVARIANTS ShapeOK NoPanic
 CHECK_DEADLOCK FALSE
